@@ -102,7 +102,9 @@ class Check:
         mine = [k for k in known if k.get("property") == self.pid or self.pid in k.get("properties", [])]
         def keys_of(k):
             ks = {k["key"], "%s:%s" % (self.pid, k["key"])}
-            ks.update(k.get("keys", []))
+            for kk in k.get("keys", []):
+                ks.add(kk)
+                ks.add("%s:%s" % (self.pid, kk))
             return ks
 
         open_keys = {}
